@@ -156,6 +156,38 @@ func selfTest(c *Ctx) (int, error) {
 		}
 		c.logf("refinement: ReaderMech with %s (what the pinned code did / still does for non-bufio ByteReaders) is rejected by the contract clauses", flipped)
 	}
+	// the gzip container model: a reader that compares ISIZE with a counter that does not wrap
+	// (what seeded change C06-d41 does) rejects valid members at and beyond the modulus
+	{
+		b, err := os.ReadFile(filepath.Join(c.specDir(), "MC_GzipMech.cfg"))
+		if err != nil {
+			return 0, err
+		}
+		name := "ST_G_DevSizeNoWrap.cfg"
+		res, err := c.TLC(tlc.Run{Module: "GzipMech", Cfg: name, Timeout: 5 * time.Minute,
+			Inline: map[string]string{name: strings.Replace(string(b), "DevSizeNoWrap = FALSE", "DevSizeNoWrap = TRUE", 1)}})
+		if err != nil {
+			return 0, err
+		}
+		if res.Violated != "C06_ValidAccepted" {
+			return 0, fmt.Errorf("GzipMech with DevSizeNoWrap = TRUE is not rejected (violated: %q)", res.Violated)
+		}
+		c.logf("GzipMech with DevSizeNoWrap = TRUE violates C06_ValidAccepted, as it must")
+	}
+	// the instance model: working state recycled through a shared pool by an instance that goes
+	// on using it (what seeded change C17-f43 does) makes instances depend on each other
+	{
+		name := "ST_I_DevSharedPool.cfg"
+		cfg := "SPECIFICATION Spec\nCONSTANTS\n  N = 2\n  K = 3\n  DevSharedPool = TRUE\nINVARIANTS C17_SameAsSolo\nCHECK_DEADLOCK FALSE\n"
+		res, err := c.TLC(tlc.Run{Module: "Instances", Cfg: name, Workers: 1, Timeout: 5 * time.Minute, Inline: map[string]string{name: cfg}})
+		if err != nil {
+			return 0, err
+		}
+		if res.Violated != "C17_SameAsSolo" {
+			return 0, fmt.Errorf("Instances with DevSharedPool = TRUE is not rejected (violated: %q)", res.Violated)
+		}
+		c.logf("Instances with DevSharedPool = TRUE violates C17_SameAsSolo, as it must")
+	}
 	c.ev.Evaluations = 2
 	c.ev.nontrivial("writer-trace-corruption")
 	c.ev.nontrivial("reader-trace-corruption")
